@@ -137,6 +137,7 @@ func TestC34Codes(t *testing.T) {
 		add("OCT(sn) is the 64-bit two's complement", f("OCT(%s)", SN), []string{"sn"}, wantStr(strconv.FormatUint(uint64(sn), 8)))
 		add("CONV(BIN(m),2,10) = m", f("CONV(BIN(%s),2,10)", M), []string{"m"}, wantStr(strconv.FormatUint(m, 10)))
 		add("CONV(OCT(m),8,10) = m", f("CONV(OCT(%s),8,10)", M), []string{"m"}, wantStr(strconv.FormatUint(m, 10)))
+		add("HEX(sn) = CONV(sn,10,16)", f("HEX(%s)", SN), []string{"sn"}, wantStr(strings.ToUpper(strconv.FormatUint(uint64(sn), 16))))
 		add("CONV(HEX(m),16,10) = m", f("CONV(HEX(%s),16,10)", M), []string{"m"}, wantStr(strconv.FormatUint(m, 10)))
 
 		// ---- ASCII / ORD / CHAR ------------------------------------------------------------------
